@@ -60,6 +60,24 @@ static int inflight_for_owner(int o)
 	return n;
 }
 
+/* descriptor budget (param fdlimit): timerfd_create fails with EMFILE while fd_limit descriptors are open.  The daemon needs one
+ * descriptor per connection and one per request in flight; a request may therefore be refused for lack of descriptors only while
+ * that many are legitimately in use. */
+static int fd_limit, fd_base_all_connected;
+static int model_fds(void)
+{
+	int n = fd_base_all_connected;
+	for (int s = 0; s < NSLOT; s++) {
+		n -= alive(s) ? 0 : 1;
+	}
+	for (int i = 0; i < nreqs; i++) {
+		if (reqs[i].st == R_PENDING && reqs[i].owner_gen == gen[reqs[i].owner]) {
+			n++;
+		}
+	}
+	return n;
+}
+
 static void connect_slot(int s)
 {
 	stalled[s] = false;
@@ -156,8 +174,18 @@ static void observe(void)
 				for (int i = 0; i < nreqs; i++) {
 					struct req *r = &reqs[i];
 					if (!r->delivered && r->st == R_PENDING && r->owner == s && r->owner_gen == gen[s] && strcmp(r->path, method->valuestring) == 0) {
-						match = r;
-						break;
+						/* prefer the request whose payload this is (requests handled in one batch are not necessarily handled in the order they were sent) */
+						cJSON *want = cJSON_Parse(r->payload);
+						const cJSON *got = r->is_call ? params : cJSON_GetObjectItemCaseSensitive(params, "value");
+						bool same = json_equal(want, got);
+						cJSON_Delete(want);
+						if (same) {
+							match = r;
+							break;
+						}
+						if (match == NULL) {
+							match = r;
+						}
 					}
 				}
 				if (match == NULL) {
@@ -368,7 +396,11 @@ static void do_request(int caller, int target, int idform, const char *payload, 
 	r->deadline = sim_now() + 5000000000ULL;
 	r->fresh = defer_settle;
 	/* the per-owner limit: a put into the owner's routing table can only fail when at least 2^(order-1) entries are in flight */
-	r->refused_ok = inflight_for_owner(r->owner) >= (1 << (CONFIG_ROUTING_TABLE_ORDER - 1));
+	r->refused_ok = inflight_for_owner(r->owner) - 1 >= (1 << (CONFIG_ROUTING_TABLE_ORDER - 1)); /* - 1: without this request itself */
+	if (fd_limit > 0 && model_fds() - 1 >= fd_limit) {
+		r->refused_ok = true; /* no descriptor left for this request's timer */
+		xp_count("requests_made_at_the_descriptor_limit", 1);
+	}
 	if (!alive(r->owner) || !elem_exists[target]) {
 		/* element is gone (with its owner, or removed by it): plain error */
 		r->st = R_FINAL;
@@ -390,7 +422,12 @@ static void apply(const struct action *a)
 	last_action = a->name;
 	switch (a->kind) {
 	case 0:
-		do_request(a->a, a->b, a->c, a->b == 2 ? "[1,\"two\"]" : "{\"k\":[1,null]}", "");
+	{
+		/* every request carries its own number so that a delivery can be attributed to exactly one request */
+		char pl[64];
+		snprintf(pl, sizeof(pl), a->b == 2 ? "[1,\"two\",%d]" : "{\"k\":[1,null],\"n\":%d}", reqctr + 1);
+		do_request(a->a, a->b, a->c, pl, "");
+	}
 		break;
 	case 1: {
 		struct req *r = oldest_pending_delivered(a->a);
@@ -518,6 +555,18 @@ static void run_interleavings(void)
 	}
 	observe();
 	int seedstate = (int)xp_param("seedstate", 0);
+	fd_limit = 0;
+	if (xp_param("fdlimit", 0) > 0) {
+		fd_base_all_connected = sim_open_fds();
+		fd_limit = fd_base_all_connected + (int)xp_param("fdlimit", 0);
+		sim_set_fd_limit(fd_limit, true);
+	}
+	if (seedstate == 3) {
+		/* non-initial start: O1 has been driven beyond its in-flight limit (some of these requests were refused) */
+		for (int i = 0; i < (1 << CONFIG_ROUTING_TABLE_ORDER) + 2; i++) {
+			apply(&ACTIONS[(i & 1) ? 3 : 0]);
+		}
+	}
 	if (seedstate == 1) {
 		/* non-initial start: two requests already in flight to O1 from both callers, one to O2 */
 		apply(&ACTIONS[0]);
